@@ -48,6 +48,13 @@ CHECKS.update({
    technique="TLA+ header classification + pipeline model + trace validation"),
 })
 
+CHECKS.update({
+ "C19": dict(level="model_checking", ref="5/C19",
+   note="patch texts rendered from the token-level universe; diagnostic positions extracted from the error text with <file>:<line>:<col>; TLC evaluating Section.tla; bounds as stated in the evidence file",
+   text="Section.tla models patches at line/token level with column arithmetic; P = position of the offending token, I = the sectioner's offset arithmetic (line offsets, scratch buffer of the meta section, offset->(line, column) table). TLC checks I = P for every patch of up to 2 changes x 5 comment/blank prefixes x 3 header forms x 4 meta sections x 7 fault kinds at every change and meta line (about 370 000 placements); a seeded sample plus 3-change variants is rendered to text, parsed by the real patch.Parse under three patch file names, and TLC (TraceSection.tla) requires rejection, a diagnostic naming the patch file, and line:column equal to the recomputed offending-token position.",
+   technique="TLA+ line/token model of the sectioner with column arithmetic + exhaustive TLC check + trace validation of real diagnostics"),
+})
+
 NOT_YET = {
 }
 
@@ -61,7 +68,7 @@ def main():
             "thorough_cmd": "./check %s thorough" % pid,
             "evidence_file": "evidence/%s.json" % pid,
             "replay_cmd_template": "./check %s quick --replay {path}" % pid,
-            "engine": "tla-rewrite" if pid in ("C01","C02","C03","C04","C05") else "tla-run",
+            "engine": "tla-rewrite" if pid in ("C01","C02","C03","C04","C05") else ("tla-section" if pid in ("C19",) else "tla-run"),
             "level_claimed": {"category": c["level"], "text": c["text"], "design_ref": "DESIGN.md section " + c["ref"]},
             "level_note": c.get("note", TRUST),
             "technique": c["technique"],
@@ -84,6 +91,8 @@ def main():
             {"name": "tla-run", "path": "spec/Pipeline.tla spec/TracePipeline.tla spec/TraceModes.tla spec/Generated.tla spec/Discover.tla spec/TraceDiscover.tla harness/cli.go lib/fam_run.py lib/fam_emit.py",
              "serves_properties": ["C06", "C07", "C12", "C15", "C16", "C18"],
              "kind_free_text": "state machine of the command's run pipeline with fault actions; hook-event and black-box trace validation of real CLI runs (strace, prlimit)"},
+            {"name": "tla-section", "path": "spec/Section.tla spec/TraceSection.tla lib/prop_c19.py",
+             "serves_properties": ["C19"], "kind_free_text": "token-level model of the patch sectioner and metavariable parser"},
             {"name": "tla-rewrite", "path": "spec/Pattern.tla spec/RewriteUniverse.tla spec/MCRewrite.tla spec/TraceRewrite.tla harness/",
              "serves_properties": ["C01", "C02", "C03", "C04", "C05"],
              "kind_free_text": "TLA+ P-layer/I-layer of the pattern language; TLC design check; vectors replayed into patch.Parse/File.Apply; TLC trace validation"},
